@@ -10,7 +10,7 @@ using namespace vf;
 
 static Fields gen(Tape &t) {
   Fields f;
-  LongMode lm(t);
+  LongMode lm(t, true);
   if (lm.on()) f.seti("long", 1);
   GenUri b = g_base(t, /*forceScheme=*/false);
   int kind = 0;
